@@ -18,6 +18,7 @@ import warnings  # noqa: E402
 
 warnings.filterwarnings('ignore', message='Error reading persistent compilation cache')
 warnings.filterwarnings('ignore', message='Error writing persistent compilation cache')
+warnings.filterwarnings('ignore', message='Explicitly requested dtype')
 
 import jax  # noqa: E402
 
